@@ -1,10 +1,15 @@
 import Cfdm.Lemmas.Groups
 import Cfdm.Lemmas.GroupsPlace
+import Cfdm.Lemmas.GroupsMulti
 /-
 C11 — hierarchical groups change the file layout, never the meaning.
-Property theorems only.  The un-suffixed model functions are the code after the proposed
-patches (fixes/C11-*.patch); the code as it stands (`resolveOld`, `searchRelOld`, `dfs`,
-`flatNameOld`, `dictOfPairs`, `varWrittenOld`, `findCoordVarOld`) is refuted by the `…_counterexample` theorems.
+Property theorems only.  The un-suffixed model functions are the code as it is in /repo after the
+nine C11 `fix:` commits; the code before them (`resolveOld`, `searchRelOld`, `dfs`, `flatNameOld`,
+`dictOfPairs`, `varWrittenOld`, `findCoordVarOld`) is refuted by the `…_counterexample` theorems.
+For several fields in one dataset and for the reader's base names (last two sections) the
+un-suffixed functions are the code after the PROPOSED patches
+(fixes/C11-write-group-attributes-several-fields.patch, fixes/C11-read-basename-from-path.patch) and
+`writeFieldsNOld`, `readBaseOld` the code as it stands (open findings).
 
 Names are `List Char`; `NoSlash c` (no `/` inside — netCDF forbids it) is the only
 hypothesis on names, except for the injectivity of flattened names, which needs
@@ -643,6 +648,242 @@ theorem C11_old_group_attribute_counterexample :
     readProp (groupWritten [("foo".toList, "baz".toList)] [("foo".toList, some "bar".toList)])
       (varWrittenOld [("foo".toList, "baz".toList)] [("foo".toList, some "bar".toList)]) "foo".toList
       = some "bar".toList := by
+  decide
+
+
+/-! ## group attributes of several fields in one dataset -/
+
+/-- **Every group attribute lands in exactly its group.**  `_write_group_attributes` walks, for
+each distinct group path in turn, from the ROOT of the dataset down that path (creating the groups
+that are missing) and sets the attributes there.  For every dataset tree to start with and every
+list of pairwise different paths: afterwards the group at `q` carries the attributes listed for `q`
+(merged into what it had) if `q` is listed and is unchanged otherwise; the groups of the dataset are
+those there were plus the listed paths and their ancestors — nothing else is created; and no
+dimension or variable is touched. -/
+theorem C11_group_attributes_placement (t : Grp) (xs : List (Path × List (Name × Name)))
+    (hnd : (xs.map (·.1)).Nodup) (q : Path) :
+    attrsAt (writeGroupAttrs t xs) q =
+      (match xs.find? (fun x => x.1 == q) with
+       | some x => dictUpdate (attrsAt t q) x.2
+       | none => attrsAt t q) ∧
+    groupAt (writeGroupAttrs t xs) q = (groupAt t q || xs.any (fun x => q.isPrefixOf x.1)) ∧
+    (∀ sd n, hasAt (writeGroupAttrs t xs) q sd n = hasAt t q sd n) :=
+  ⟨(writeGroupAttrs_spec xs t hnd q).1, (writeGroupAttrs_spec xs t hnd q).2,
+    fun sd n => hasAt_writeGroupAttrs xs t q sd n⟩
+
+/-- Three fields in `/model/run1`, `/obs` and `/climatology`. -/
+def exWalk : List (Path × List (Name × Name)) :=
+  [(["model".toList, "run1".toList], [("comment".toList, "m".toList)]),
+   (["obs".toList], [("comment".toList, "o".toList), ("source".toList, "s".toList)]),
+   (["climatology".toList], [("comment".toList, "c".toList)])]
+
+example : (exWalk.map (·.1)).Nodup := by decide
+example : attrsAt (writeGroupAttrs emptyRoot exWalk) ["obs".toList] =
+    [("comment".toList, "o".toList), ("source".toList, "s".toList)] := by decide
+example : (writeGroupAttrs emptyRoot exWalk).groupPaths =
+    [[], ["model".toList], ["model".toList, "run1".toList], ["obs".toList], ["climatology".toList]] := by decide
+
+/-- The walk has to start at the root every time: with `nc = g["netcdf"]` hoisted out of the loop
+the second and third walks continue from where the previous one ended — the attributes of `/obs`
+land in the spurious group `/model/run1/obs`, and `/obs` itself gets none. -/
+theorem C11_walk_must_restart_at_root_counterexample :
+    attrsAt (writeGroupAttrsHoisted emptyRoot [] exWalk) ["obs".toList] = []
+    ∧ attrsAt (writeGroupAttrsHoisted emptyRoot [] exWalk) ["model".toList, "run1".toList, "obs".toList]
+        = [("comment".toList, "o".toList), ("source".toList, "s".toList)]
+    ∧ groupAt (writeGroupAttrsHoisted emptyRoot [] exWalk)
+        ["model".toList, "run1".toList, "obs".toList, "climatology".toList] = true
+    ∧ groupAt (writeGroupAttrs emptyRoot exWalk) ["model".toList, "run1".toList, "obs".toList] = false := by
+  decide
+
+/-- **The groups of a dataset written for N fields, and their attributes.**  For every list of fields:
+the group at path `q` of the written dataset carries, under name `a`, exactly the value the
+selection rule gives that attribute in group `q` (`groupAttr`: the merged `nc_group_attributes()`
+entry of the fields of `q`, kept only if it is a property with one value for all the fields of `q`
+that no field in a sub-group lacks) when some field lives in `q`, and nothing otherwise; and the
+groups of the dataset are the root and the groups of the fields with their ancestors. -/
+theorem C11_group_attributes_of_fields (fs : List MField) (q : Path) (a : Name) :
+    alookup (attrsAt (groupTreeWith true fs) q) a =
+      (if q ∈ groupKeys fs then groupAttr true fs q a else none) ∧
+    groupAt (groupTreeWith true fs) q =
+      (decide (q = []) || fs.any (fun f => !f.grp.isEmpty && q.isPrefixOf f.grp)) := by
+  constructor
+  · rw [alookup_attrsAt_groupTree]
+    unfold dictLook
+    by_cases hq : q ∈ groupKeys fs
+    · simp [hq, alookup_selectedWith]
+    · simp [hq]
+  · unfold groupTreeWith
+    have hnd : (((groupKeys fs).map (fun g => (g, selectedWith true fs g))).map (·.1)).Nodup := by
+      simp only [List.map_map]
+      have : ((fun x : Path × List (Name × Name) => x.1) ∘ fun g => (g, selectedWith true fs g)) = id := by
+        funext g; rfl
+      rw [this]; simpa using groupKeys_nodup fs
+    rw [(writeGroupAttrs_spec _ emptyRoot hnd q).2, groupAt_emptyRoot]
+    congr 1
+    rw [Bool.eq_iff_iff]
+    simp only [List.any_map, List.any_eq_true, Function.comp, Bool.and_eq_true, Bool.not_eq_eq_eq_not, Bool.not_true,
+      List.isEmpty_eq_false_iff]
+    constructor
+    · rintro ⟨g, hg, hpre⟩
+      obtain ⟨hne, f, hf, e⟩ := (mem_groupKeys fs g).mp hg
+      exact ⟨f, hf, by rw [e]; exact hne, by rw [e]; exact hpre⟩
+    · rintro ⟨f, hf, hne, hpre⟩
+      exact ⟨f.grp, (mem_groupKeys fs f.grp).mpr ⟨hne, f, hf, rfl⟩, hpre⟩
+
+/-- **Group attributes of several fields never change any field's meaning** (patched writer).  For
+every list of fields written by one call — any group paths (equal, nested, unrelated, the root),
+any properties, any `nc_group_attributes()` dictionaries (`None`, own values, conflicting records,
+names that are not properties) — and every set `D` of description-of-file-contents names: each
+field reads back, through "variable attribute, else the nearest enclosing group's attribute, else
+the global attribute", exactly its own properties.  The reader looks in the written dataset
+(`groupTreeWith`), the writer decides what to leave off a variable from its own record
+(`dictLook`); `C11_group_attributes_placement` is what makes the two agree. -/
+theorem C11_group_attributes_several_fields (D : List Name) (fs : List MField) (f : MField) (hf : f ∈ fs)
+    (a : Name) :
+    readPropN (writeFieldsN D fs) f.grp
+      (f.props.filter (fun kv => !omittedN (globalNames D fs) (dictLook true fs) f kv.1)) a = alookup f.props a := by
+  unfold readPropN
+  simp only [writeFieldsN]
+  rw [alookup_filter f.props (fun k => !omittedN (globalNames D fs) (dictLook true fs) f k) a,
+    inherited_groupTree true fs f.grp a, alookup_globalsOf D fs f hf a]
+  generalize hI : inheritedFrom (dictLook true fs) f.grp a f.grp.length = inh
+  by_cases hom : omittedN (globalNames D fs) (dictLook true fs) f a = true
+  · simp only [hom, Bool.not_true, Bool.false_eq_true, ↓reduceIte]
+    unfold omittedN at hom
+    by_cases hroot : f.grp.isEmpty = true
+    · simp only [hroot, ↓reduceIte] at hom
+      have hnil : f.grp = [] := by simpa using hroot
+      rw [hnil] at hI
+      simp only [List.length_nil, inheritedFrom] at hI
+      subst hI
+      have hm : a ∈ globalNames D fs := by simpa using hom
+      simp [hm]
+    · simp only [hroot, Bool.false_eq_true, ↓reduceIte, hI, Bool.and_eq_true] at hom
+      cases inh with
+      | some v =>
+        have := hom.2
+        simp only [beq_iff_eq] at this
+        simp [this]
+      | none =>
+        have hm : a ∈ globalNames D fs := by simpa using hom.2
+        simp [hm]
+  · have hom' : omittedN (globalNames D fs) (dictLook true fs) f a = false := by simpa using hom
+    simp only [hom', Bool.not_false, ↓reduceIte]
+    cases hp : alookup f.props a with
+    | some v => rfl
+    | none =>
+      have hinh : inh = none := by
+        cases inh with
+        | none => rfl
+        | some v =>
+          exfalso
+          obtain ⟨k, _, _, hl⟩ := inheritedFrom_some _ _ _ _ _ hI
+          have := keepAttr_covers fs (f.grp.take k) a (dictLook_some fs _ a v hl) f hf k rfl
+          simp [hp] at this
+      have hglob : a ∉ globalNames D fs := by
+        intro hg
+        obtain ⟨v, hv⟩ := globalNames_mem D fs a hg
+        rw [hv f hf] at hp
+        exact absurd hp (by simp)
+      simp [hinh, hglob]
+
+/-- `q1` in `/a` records `comment` as a group attribute (`None`) and `project` with a value of its
+own; `q2` in `/a` has another `comment`; `q3` in `/a/b` has no `comment` at all. -/
+def exFields : List MField :=
+  [⟨["a".toList], "q1".toList, [("comment".toList, "one".toList), ("project".toList, "p".toList)],
+      [("comment".toList, none), ("project".toList, some "other".toList)]⟩,
+   ⟨["a".toList], "q2".toList, [("comment".toList, "two".toList), ("project".toList, "p".toList)], []⟩,
+   ⟨["a".toList, "b".toList], "q3".toList, [("project".toList, "p".toList)], []⟩]
+
+example : (writeFieldsN ["comment".toList] exFields).vars =
+    [[("comment".toList, "one".toList), ("project".toList, "p".toList)],
+     [("comment".toList, "two".toList), ("project".toList, "p".toList)],
+     [("project".toList, "p".toList)]] := by decide
+example : attrsAt (writeFieldsN ["comment".toList] exFields).tree ["a".toList] = [("project".toList, "other".toList)] := by
+  decide
+
+/-- The writer as it stands (`writeFieldsNOld`): (1) two fields of one group record `comment` as a
+group attribute but disagree on its value — the attribute is not written to the group, yet both
+variables leave it off: the property is lost; (2) a field in `/a/b` without the property is given
+the attribute of `/a` on read; (3) a group attribute with a value of its own hides the equal-valued
+global attribute of the other field of the group.  The patched writer returns the originals. -/
+theorem C11_old_several_fields_counterexample :
+    let c := "comment".toList
+    let a := "a".toList
+    let fs1 : List MField := [⟨[a], "q1".toList, [(c, "one".toList)], [(c, none)]⟩,
+                              ⟨[a], "q2".toList, [(c, "two".toList)], [(c, none)]⟩]
+    let fs2 : List MField := [⟨[a], "q1".toList, [(c, "one".toList)], [(c, none)]⟩,
+                              ⟨[a, "b".toList], "q2".toList, [], []⟩]
+    let fs3 : List MField := [⟨[a], "q1".toList, [(c, "c".toList)], [(c, some "other".toList)]⟩,
+                              ⟨[a], "q2".toList, [(c, "c".toList)], []⟩]
+    (writeFieldsNOld [] fs1).vars = [[], []] ∧ attrsAt (writeFieldsNOld [] fs1).tree [a] = []
+    ∧ (writeFieldsN [] fs1).vars = [[(c, "one".toList)], [(c, "two".toList)]]
+    ∧ readPropN (writeFieldsNOld [] fs2) [a, "b".toList] [] c = some "one".toList
+    ∧ readPropN (writeFieldsN [] fs2) [a, "b".toList] [] c = none
+    ∧ (writeFieldsNOld [c] fs3).vars = [[(c, "c".toList)], []]
+    ∧ readPropN (writeFieldsNOld [c] fs3) [a] [] c = some "other".toList
+    ∧ (writeFieldsN [c] fs3).vars = [[(c, "c".toList)], [(c, "c".toList)]] := by
+  decide
+
+
+/-- **Sub-groups supersede their parents.**  The reader collects the attributes of the enclosing
+groups of a data variable with `group_attributes.update(...)`, outermost group first.  For every
+dataset tree whose groups have dictionaries of attributes (distinct names) and every group path:
+what the loop leaves under name `a` is the attribute of the NEAREST enclosing group that has one
+(the root excluded).  In particular this holds in every dataset the writer produces for N fields,
+so `C11_group_attributes_several_fields` speaks about the reader as coded. -/
+theorem C11_reader_group_attribute_precedence (t : Grp) (grp : Path) (a : Name)
+    (h : ∀ k, (keys (attrsAt t (grp.take k))).Nodup) :
+    inheritedLoop t grp a = inherited t grp a ∧
+    (∀ fs : List MField, inheritedLoop (groupTreeWith true fs) grp a = inherited (groupTreeWith true fs) grp a) :=
+  ⟨inheritedLoop_eq t grp a h,
+   fun fs => inheritedLoop_eq _ grp a (fun k => attrsAt_groupTree_nodup true fs (grp.take k))⟩
+
+example : inheritedLoop (writeGroupAttrs emptyRoot
+      [(["a".toList], [("c".toList, "outer".toList), ("d".toList, "x".toList)]),
+       (["a".toList, "b".toList], [("c".toList, "inner".toList)])])
+    ["a".toList, "b".toList] "c".toList = some "inner".toList := by decide
+example : inheritedLoop (writeGroupAttrs emptyRoot
+      [(["a".toList], [("c".toList, "outer".toList), ("d".toList, "x".toList)]),
+       (["a".toList, "b".toList], [("c".toList, "inner".toList)])])
+    ["a".toList, "b".toList] "d".toList = some "x".toList := by decide
+
+/-! ## the reader's base names -/
+
+/-- **Base names.**  The reader compares the base name of a dimension with the base names of the
+variables that span it to find its coordinate variable.  Patched, the base name is the last
+component of the absolute path recorded by the flattener: for every element it is the element's
+own name.  As it stands the reader strips `g1__g2__` from the FLATTENED name: that is the own name
+when the flattened name is the plain concatenation (short enough, not already in use) — and not
+when the flattener had to fall back on a hash (`a/b__c` before `a/b/c`). -/
+theorem C11_reader_base_name (p : Path) (n : Name) (hp : ∀ c ∈ p, NoSlash c) (hn : NoSlash n) :
+    readBase (absName p n) = n ∧
+    (∀ (h : List Char → List Char) (u : List (List Char)), p ≠ [] → (fullName p n).length < 256 → fullName p n ∉ u →
+      readBaseOld p (flatName h u p n) = n) := by
+  constructor
+  · unfold readBase
+    rw [splitOn_absName p n hp hn]
+    have : ([] : List Char) :: (p ++ [n]) = ([] :: p) ++ [n] := by simp
+    rw [this, getLastD_snoc]
+  · intro h u hne hs hu
+    rw [flatName_short h u p n hs hu]
+    cases p with
+    | nil => exact absurd rfl hne
+    | cons c cs =>
+      simp only [readBaseOld]
+      rw [fullName_cons_snoc]
+      simp
+
+example : readBase "/forecast/model/lat".toList = "lat".toList := by decide
+example : readBaseOld ["forecast".toList, "model".toList] "forecast__model__lat".toList = "lat".toList := by decide
+
+/-- With `/a/b__c` flattened first, `/a/b/c` gets a hashed name and the code as it stands takes the
+hash for its base name. -/
+theorem C11_old_reader_base_name_counterexample :
+    let h : List Char → List Char := fun s => 'H' :: s
+    flatName h ["a__b__c".toList] ["a".toList, "b".toList] "c".toList = "H/a/b__c".toList
+    ∧ readBaseOld ["a".toList, "b".toList] (flatName h ["a__b__c".toList] ["a".toList, "b".toList] "c".toList) ≠ "c".toList
+    ∧ readBase (absName ["a".toList, "b".toList] "c".toList) = "c".toList := by
   decide
 
 end Cfdm.Props.C11
